@@ -258,6 +258,18 @@ theorem euler2SO3_euler (eps : ℝ) (heps : 0 ≤ eps) (p : Quat ℝ) (h : p.nor
     euler2SO3 (SO3euler eps p) = p ∨ euler2SO3 (SO3euler eps p) = p.neg :=
   SO3matrix_inj _ _ (euler2SO3_normSq' _) h (euler2SO3_euler_same_rotation eps heps p h hreg)
 
+/-- **inside the gimbal-lock band, documented expectation**: exactly at lock (`sin pitch = ±1`) the singular-branch
+formulas of `euler()` (`roll = 0`, `pitch = ±π/2`, `yaw = −2·pm(t2)·atan2(x, w)`) reproduce the rotation exactly,
+`Rz(yaw)·Ry(pitch)·Rx(0) = R(X)`; away from lock inside the band the deviation grows with `acos|sin pitch| ≤ √(2·eps)`
+(measured ≤ 1.12·acos|t2| by the harness oracle `gimbal`, not proved) -/
+theorem euler_gimbal_lock_exact (eps : ℝ) (heps : 0 ≤ eps) (p : Quat ℝ) (h : p.normSq = 1)
+    (hlock : 2 * (p.w * p.y - p.z * p.x) = 1 ∨ 2 * (p.w * p.y - p.z * p.x) = -1) :
+    SO3matrix (euler2SO3 (SO3euler eps p)) = SO3matrix p ∧
+      (euler2SO3 (SO3euler eps p) = p ∨ euler2SO3 (SO3euler eps p) = p.neg) := by
+  have hm : SO3matrix (euler2SO3 (SO3euler eps p)) = SO3matrix p := by
+    rw [euler2SO3_matrix', eulerMat_SO3euler_gimbal eps heps p h hlock]
+  exact ⟨hm, SO3matrix_inj _ _ (euler2SO3_normSq' _) h hm⟩
+
 /-- `eulerRegular` is the stated condition: on a unit quaternion `t2 = 2(wy − zx) = sin(pitch)` -/
 theorem eulerRegular_iff (eps : ℝ) (p : Quat ℝ) (h : p.normSq = 1) :
     eulerRegular eps p = true ↔ |2 * (p.w * p.y - p.z * p.x)| < 1 - eps := by
@@ -440,6 +452,11 @@ example : (⟨0.3, -0.5, 2⟩ : Vec3 ℝ).x ∈ Set.Ioc (-Real.pi) Real.pi ∧
   refine ⟨⟨by simp only []; linarith, by simp only []; linarith⟩, ⟨by simp only []; linarith, by simp only []; linarith⟩⟩
 /-- `check_rejects_scaled` has instances: `c = 2`, default tolerances -/
 example : (1 / 100000 : ℝ) + 1 / 100000 < |(2 : ℝ) * 2 - 1| := by rw [abs_of_pos] <;> norm_num
+/-- exact gimbal lock is attained by a unit quaternion: `p = (0, √½, 0, √½)` has `2(wy − zx) = 1` -/
+example : ∃ p : Quat ℝ, p.normSq = 1 ∧ 2 * (p.w * p.y - p.z * p.x) = 1 := by
+  refine ⟨⟨0, Real.sqrt (1 / 2), 0, Real.sqrt (1 / 2)⟩, ?_, ?_⟩
+  · lie_unfold; have := Real.mul_self_sqrt (show (0 : ℝ) ≤ 1 / 2 by norm_num); linarith
+  · simp only []; have := Real.mul_self_sqrt (show (0 : ℝ) ≤ 1 / 2 by norm_num); linarith
 /-- identity is regular for the default `eps = 2e-4` -/
 example : eulerRegular (2 / 10000 : ℝ) (⟨0, 0, 0, 1⟩ : Quat ℝ) = true := by
   rw [eulerRegular_iff _ _ (by lie_unfold; norm_num)]; norm_num
